@@ -244,6 +244,9 @@ static inline int mc_case(void) {
     return 1;
 }
 #define MC_CASE() mc_case()
+/* An enumeration that follows a part whose case counter differs from shard to shard (a BFS run by one shard only) starts from a
+ * common index, so that `idx % nshards` partitions its cases among the shards again. */
+static inline void mc_phase(unsigned phase) { mc_idx = (unsigned long long) phase << 44; }
 
 /* For range-sharded enumerations (e.g. 2^32 values): harness uses mc_shard/mc_nshards itself and
  * calls mc_range_tick() every so often to honour the deadline. */
